@@ -838,12 +838,14 @@ pub fn suite_bitmask(out: &mut Out, tier: &str, rng: &mut Rng) {
             words.push((rng.next() as u32).to_be_bytes());
         }
         out.emit(json!({"op": "bitmask", "kind": k, "words": words.iter().map(|w| bytes_json(w)).collect::<Vec<_>>()}));
-        // ALL 2^32 words, in 16 chunks (16 threads each): the release build takes every one of them in both tiers, the
-        // build with debug assertions 2^24 per chunk in the quick tier and all in the thorough tier
-        for chunk in 0..16u64 {
-            let lo = chunk << 28;
-            out.emit(json!({"op": "bitmask_sweep", "kind": k, "lo": lo, "hi": lo + (1u64 << 28) - 1, "threads": 16,
-                            "dev_span_log2": if tier == "thorough" { 28 } else { 24 }}));
+        // ALL 2^32 words, in 64 chunks (16 threads each): the release build takes every one of them in both tiers, the
+        // build with debug assertions 2^22 per chunk (2^28 in all) in the quick tier and all in the thorough tier
+        // (64 chunks of 2^26 words: a fraction of a second each, so that even a heavily loaded machine stays far
+        //  from the per-case watchdog)
+        for chunk in 0..64u64 {
+            let lo = chunk << 26;
+            out.emit(json!({"op": "bitmask_sweep", "kind": k, "lo": lo, "hi": lo + (1u64 << 26) - 1, "threads": 16,
+                            "dev_span_log2": if tier == "thorough" { 26 } else { 22 }}));
         }
         // the same words as whole records through AVP::try_read_greedy, header M bit set / clear / reserved bits set
         for f6 in [1u8, 0, 0x3d, 0x3c] {
